@@ -33,6 +33,10 @@ def _nodes(cel, rng, flip):
     if flip:
         M[:, 0] = -M[:, 0]
     v = ref @ M.T + rng.uniform(-1, 1, tdim)
+    gdim = cel.reference_value_shape[0] if cel.reference_value_shape else tdim
+    if gdim > tdim:  # immersed manifold: embed by a full-rank linear map
+        E = np.vstack([np.eye(tdim), 0.4 * rng.uniform(-1, 1, (gdim - tdim, tdim))])
+        v = v @ E.T + rng.uniform(-1, 1, gdim)
     simplex_affine = cel.cell_type.name in ("interval", "triangle", "tetrahedron") and sub.embedded_superdegree == 1
     if not simplex_affine:
         v = v + 0.06 * rng.uniform(-1, 1, v.shape)
@@ -105,6 +109,8 @@ def _wanted(prop, kn):
         return bool(kn.fd.reduced_coefficients or kn.fd.original_form.constants())
     if prop == "C09":
         return np.issubdtype(np.dtype(kn.options["scalar_type"]), np.complexfloating)
+    if prop == "C10":
+        return bool(kn.options.get("sum_factorization"))
     if prop == "C11":
         return len(kn.itg.integrals) > 1 or any(i.metadata().get("quadrature_rule", "default") != "default" or "quadrature_degree" in i.metadata() and i.metadata().get("quadrature_degree") != i.metadata().get("estimated_polynomial_degree") for i in kn.itg.integrals)
     return True
@@ -149,8 +155,6 @@ def _check_domain(dom, terminals, ufl):
     cellname = dom.ufl_cell().cellname
     if cellname not in CELLS:
         raise R.Unsupported(f"cell {cellname}")
-    if dom.geometric_dimension != dom.ufl_cell().topological_dimension:
-        raise R.Unsupported("manifold geometry")
     if any(t.ufl_function_space().ufl_domain() != dom for t in terminals):
         raise R.Unsupported("several domains")
     if any(getattr(t.ufl_element(), "has_custom_quadrature", False) for t in terminals):
@@ -184,8 +188,9 @@ def _kernel(kn, fd2_cache, seed, run_kernel, ufl):
     it = itg.integral_type
     if it not in ("cell", "exterior_facet", "interior_facet", "vertex"):
         raise R.Unsupported(f"integral type {it}")
-    if str(options["part"]) != "full" or options.get("sum_factorization"):
-        raise R.Unsupported("diagonal / sum-factorised kernels (compared with the plain kernel by E3 metamorphic)")
+    if str(options["part"]) != "full":
+        raise R.Unsupported("diagonal kernels (compared with the full kernel by E3 metamorphic)")
+    sumfact = bool(options.get("sum_factorization")) and it == "cell"
     dom = itg.domain
     terminals = list(fd.original_form.arguments()) + list(fd.original_form.coefficients())
     if len(set(fd.original_form.ufl_domains())) != 1:
@@ -263,7 +268,16 @@ def _kernel(kn, fd2_cache, seed, run_kernel, ufl):
                 md["estimated_polynomial_degree"] = int(np.max(md["estimated_polynomial_degree"])) + shift
                 els = [x.ufl_element() for x in list(args) + coeffs]
                 if it == "cell":
-                    pts, W = _quadrature(cellname, md, els)
+                    if sumfact and cellname in ("quadrilateral", "hexahedron") and md.get("quadrature_rule", "default") == "default":
+                        # sum factorisation integrates with the tensor product of the 1D rule of the same degree
+                        p1, w1 = _quadrature("interval", md, els)
+                        import itertools
+
+                        d = 2 if cellname == "quadrilateral" else 3
+                        pts = np.array([[p[0] for p in c] for c in itertools.product(p1, repeat=d)])
+                        W = np.array([np.prod(c) for c in itertools.product(w1, repeat=d)])
+                    else:
+                        pts, W = _quadrature(cellname, md, els)
                     per_side = [pts]
                     scale = [abs(cell0.geom(X)[2]) for X in pts]
                 elif it == "vertex":
